@@ -1,3 +1,4 @@
 import Cgm.Lemmas.AuditCmd
 import Cgm.Props.C03
+import Cgm.Props.C03b
 #audit_namespace Cg.C03
